@@ -6,8 +6,8 @@
     one of these combinators (a map iterated inside a dapp, a process-global
     cache) is outside the model and is only covered by the repeated runs of the
     harness: the property is shown partially. *)
-From Coq Require Import List NArith Arith Bool Permutation Sorted.
-From C33 Require Import Lib.Bytes C13.Model C13.Spec C13.Proofs C13.Proofs2.
+From Coq Require Import List ZArith NArith Arith Bool Permutation Sorted.
+From C33 Require Import Lib.Bytes C13.Model C13.ModelRoot C13.Spec C13.Proofs C13.Proofs2 C13.ProofsRoot.
 Import ListNotations.
 
 (** executor.sortedPluginNames: whatever order the plugin map is iterated in, the
@@ -79,6 +79,38 @@ Theorem C13_merkle_root_schedule_independent :
   top (map (fun c => Some (sub c)) (chunks_of (length hashes) step hashes)).
 Proof. exact @par_root_independent. Qed.
 Print Assumptions C13_merkle_root_schedule_independent.
+
+(** merkle.GetMerkleRoot as the block's TxHash uses it (CalcMerkleRoot, util.CreateNewBlock,
+    the ErrCheckTxHash comparison of util.PreExecBlock): for every CPU count [ncpu]
+    (runtime.NumCPU(): it fixes the chunk size, the 256 cap and the padding of the last
+    chunk) and every completion order of the chunk goroutines the root is the sequential
+    root, hence a function of the hash list alone.  The CPU-count half is C18's
+    C18_parallel_eq_sequential, imported. *)
+Theorem C13_tx_root_cpu_independent :
+  forall (T : Type) (nilT : T) (hash2 : T -> T -> T) (ncpu1 ncpu2 : Z) sched1 sched2 (hashes : list T),
+  is_perm sched1 (root_tasks ncpu1 hashes) ->
+  is_perm sched2 (root_tasks ncpu2 hashes) ->
+  merkle_root_cpu nilT hash2 ncpu1 sched1 hashes = merkle_root_cpu nilT hash2 ncpu2 sched2 hashes
+  /\ merkle_root_cpu nilT hash2 ncpu1 sched1 hashes = seq_root nilT hash2 hashes.
+Proof. exact @tx_root_cpu_independent. Qed.
+Print Assumptions C13_tx_root_cpu_independent.
+
+(** 600 leaves: 1 CPU takes the sequential path, 2 CPUs cut 3 chunks of 256 (cap reached,
+    last chunk of 88 padded), 16 CPUs 19 chunks of 32 (last chunk of 24 padded) *)
+Example C13_tx_root_nonvacuous :
+  let h2 := fun x y : N => ((x * 31 + y * 17 + 1) mod 1000003)%N in
+  let hs := map N.of_nat (seq 0 600) in
+  (root_tasks 1 hs, root_tasks 2 hs, root_tasks 16 hs) = (0, 3, 19) /\
+  is_perm [2; 0; 1] (root_tasks 2 hs) /\ is_perm (rev (seq 0 19)) (root_tasks 16 hs) /\
+  merkle_root_cpu 0%N h2 2 [2; 0; 1] hs = merkle_root_cpu 0%N h2 16 (rev (seq 0 19)) hs /\
+  merkle_root_cpu 0%N h2 2 [2; 0; 1] hs = seq_root 0%N h2 hs.
+Proof.
+  cbv zeta. split; [vm_compute; reflexivity|].
+  split; [apply is_permb_sound; vm_compute; reflexivity|].
+  split; [apply is_permb_sound; vm_compute; reflexivity|].
+  split; vm_compute; reflexivity.
+Qed.
+Print Assumptions C13_tx_root_nonvacuous.
 
 Theorem C13_child_chains_schedule_independent :
   forall (H : Type) (single : nat -> nat -> H) (top : list (option H) -> H) sched execs cs,
